@@ -139,11 +139,14 @@ def _synth(blocks, banner='LAMMPS (29 Oct 2020 - Update 2)', cut_last=None, extr
         lines += ['Loop time of 0.01 on 1 procs for 100 steps with 4 atoms\n', '\n']
         if extra_banner and k == 0:
             lines += ['LAMMPS (1 Jan 1999)\n']
+        lines += ['Performance: 86.4 ns/day, 0.278 hours/ns, 1000 timesteps/s\n', '\n']
         if timing:
             nb = len([x for x in lines if x.strip()])
             lines += ['MPI task timing breakdown:\n', 'Section |  min time  |  avg time  |  max time  |%varavg| %total\n', '---------------------------------------------------------------\n',
-                      'Pair    | 0.001 | 0.001 | 0.001 |   0.0 | 50.00\n', 'Neigh   | 0 | 0 | 0 |   0.0 |  0.00\n', '\n', 'Nlocal:    4.00000 ave 4 max 4 min\n']
+                      'Pair    | 0.001 | 0.001 | 0.001 |   0.0 | 50.00\n', 'Neigh   | 0 | 0 | 0 |   0.0 |  0.00\n', '\n']
             perf.append((k, nb + 1, nb + 4))
+        # the neighbour statistics follow every completed run, whether or not a timing breakdown was printed (`timer off` suppresses the breakdown only)
+        lines += ['Nlocal:    4.00000 ave 4 max 4 min\n', 'Histogram: 1 0 0 0 0 0 0 0 0 0\n', '\n']
         lines += ['Total wall time: 0:00:00\n' if last else 'reset_timestep 0\n']
     return lines, want, perf
 
@@ -202,7 +205,9 @@ def read_model(ctx):
     for tag, blocks, kw in (('two runs, both memory banners, blank lines before, between and inside the tables, timing breakdown after the first', [A, B], {}),
                             ('three runs, the last one cut short by a crash after two rows', [A, B, C], {'cut_last': 2}),
                             ('one run cut short right after its header line', [C], {'cut_last': 0}),
-                            ('no version banner', [B, A], {'banner': None})):
+                            ('no version banner', [B, A], {'banner': None}),
+                            ('two runs, neither prints a timing breakdown (timer off)', [B, (MEM1, C[1], C[2], False)], {}),
+                            ('three runs, only the last prints a timing breakdown', [B, (MEM1, A[1], A[2], False), C], {})):
         n += 1
         lines, want, perf = _synth(blocks, **kw)
         obj = new_log()
@@ -217,14 +222,16 @@ def read_model(ctx):
                not chg, 'read_csv called with %s' % chg, node=read, key='cell rules ' + tag)
         wantperf = [(h, f) for k, h, f in perf]
         ok = st == 'ok' and [(h, f) for h, f, old, pos in perfcalls] == wantperf and all(pos == 0 and old is False for h, f, old, pos in perfcalls) \
-            and all(getattr(obj.attrs['_Log__simulations'][i_], 'performance', None) == ('PERF', h, f) for i_, (k, h, f) in enumerate(perf))
-        ctx.ob('READ', loc, '%s: each timing breakdown is read over its own lines (the line after its banner … the line before "Nlocal"), from a rewound stream, and the tables are attached in order to the runs just read' % tag, bool(ok), str(perfcalls), node=read, key='perf ' + tag)
+            and all(getattr(obj.attrs['_Log__simulations'][k], 'performance', None) == ('PERF', h, f) for k, h, f in perf) \
+            and all(getattr(sim_, 'performance', None) is None for k_, sim_ in enumerate(obj.attrs['_Log__simulations']) if k_ not in [k for k, h, f in perf])
+        ctx.ob('READ', loc, '%s: each timing breakdown is read over its own lines (the line after its banner … the line before "Nlocal"), from a rewound stream, and attached to the run that printed it; a run without a breakdown has none' % tag,
+               bool(ok), st if st != 'ok' else str(perfcalls), node=read, key='perf ' + tag)
         if kw.get('banner', True) is not None:
             ok = obj.attrs['_Log__lammps_version'] == '29 Oct 2020 - Update 2' and obj.attrs['_Log__lammps_date'] == ('DATE', 2020, 10, 29)
             ctx.ob('READ', loc, '%s: version string = text inside the banner\'s parentheses, date = its day, month and year' % tag, bool(ok), str((obj.attrs['_Log__lammps_version'], obj.attrs['_Log__lammps_date'])), node=read, key='version ' + tag)
         else:
             ctx.ob('READ', loc, '%s: version and date stay unset' % tag, obj.attrs['_Log__lammps_version'] is None and obj.attrs['_Log__lammps_date'] is None, node=read, key='version ' + tag)
-    ctx.floor('READ', n, 4)
+    ctx.floor('READ', n, 6)
     # sequences of read() calls
     l1, w1, p1 = _synth([A, B], extra_banner=True)
     l2, w2, p2 = _synth([C], banner='LAMMPS (3 Mar 2020)')
@@ -284,14 +291,16 @@ class _Col(PyStub):
         return len(self.v)
 
     def max(self):
-        return sp.Max(*self.v)
+        return sp.Max(*self.v) if len(self.v) else sp.nan          # pandas: the extreme of an empty column is NaN
 
     def min(self):
-        return sp.Min(*self.v)
+        return sp.Min(*self.v) if len(self.v) else sp.nan
 
     def _cmp(self, o, f):
         import numpy as np
-        return np.array([bool(f(x, o)) for x in self.v])
+        if o is sp.nan:
+            return np.zeros(len(self.v), dtype=bool)                # every comparison with NaN is False
+        return np.array([bool(f(x, o)) for x in self.v], dtype=bool)
 
     def __gt__(self, o):
         return self._cmp(o, lambda x, y: x > y)
@@ -358,7 +367,7 @@ class _Frame(PyStub):
                 from ..symx import ModelError
                 raise ModelError('KeyError', k)
             return _Col(self.cols[k])
-        m = np.array([bool(v) for v in np.ravel(k)])
+        m = np.array([bool(v) for v in np.ravel(k)], dtype=bool)
         return _Frame({c: v[m] for c, v in self.cols.items()})
 
     def __setitem__(self, k, v):
@@ -492,6 +501,8 @@ def flatten_model(ctx):
                 continue
             new = [tuple((c, r[c][i]) for c in sorted(r)) for i in range(len(r['Step']))]
             step = lambda row: dict(row)['Step']
+            if not new:
+                continue          # a run cut short right after its header line has no timestep to contribute
             if not rows or style == 'all':
                 rows = rows + new
             elif style == 'first':
@@ -511,6 +522,13 @@ def flatten_model(ctx):
                'got %s' % str(got)[:240], node=fn, key='merge ' + style)
         got2 = flat(style, RUNS, 1, 4)
         ctx.ob('FLATTEN', loc, "'%s' over simulations[1:4] only" % style, got2 == brute(style, RUNS[1:4]), str(got2)[:200], node=fn, key='slice ' + style)
+    # a final run cut short by a crash right after its header line (column names, no rows), and such a run in the middle
+    EMPTY = {'Step': [], 'Temp': []}
+    for style in ('first', 'last', 'all'):
+        for tag, runs in (('the last run was cut short right after its header line', [RUNS[0], RUNS[1], dict(EMPTY)]), ('a run in the middle has no rows', [RUNS[0], dict(EMPTY), RUNS[3]]),
+                          ('the first run has no rows (a crashed log followed by the appended log of its restart)', [dict(EMPTY), RUNS[0], RUNS[1]])):
+            got3 = flat(style, runs)
+            ctx.ob('FLATTEN', loc, "'%s', %s: the timesteps of the other runs are all there, each once" % (style, tag), got3 == brute(style, runs), 'got %s' % str(got3)[:200], node=fn, key='empty run %s %s' % (style, tag[:12]))
     ctx.ob('FLATTEN', loc, "the default style is 'last'", flat(None, RUNS, give_style=False) == brute('last', RUNS), node=fn, key='default style')
     ctx.ob('FLATTEN', loc, 'merged rows are renumbered (ignore_index=True on every concatenation)', bool(concat_calls) and all(concat_calls), node=fn, key='ignore_index')
     ctx.ob('FLATTEN', loc, 'an unknown style is refused', flat('median', RUNS) is None, node=fn, key='unknown style')
